@@ -1003,6 +1003,8 @@ def k3_prims():
 
     def scope_arg_visible(I, a, k, n):
         """binding of a name in a Scope object that was passed as an argument"""
+        if not isinstance(a[0], VRec):
+            return fresh(ANY, 'no_such_scope_argument')     # the call did not happen on this path
         present, value = scope_visible(a[0], a[1])
         return _bound_value(present, value)
 
